@@ -287,6 +287,45 @@ func runC12(p *core.Prog, r *core.Report) {
 		r.Touch(core.FuncName(fn))
 		rd := p.Named(pkgReqctx, "RequestDetails")
 		gate, hand, start := core.FieldOf(rd, "LinearGateBlockNum"), core.FieldOf(rd, "LinearHandoffBlockNum"), core.FieldOf(rd, "ResolvedStartBlockNum")
+		// the builtin form: gate = max(start, hand-off)
+		isStartV := func(v ssa.Value) bool {
+			if f, _ := core.LoadedField(core.SkipConv(v)); f == start {
+				return true
+			}
+			for _, w := range core.FieldWritesIn(fn, start) {
+				if w.Value == core.SkipConv(v) {
+					return true
+				}
+			}
+			return false
+		}
+		isHandV := func(v ssa.Value) bool {
+			if f, _ := core.LoadedField(core.SkipConv(v)); f == hand {
+				return true
+			}
+			for _, w := range core.FieldWritesIn(fn, hand) {
+				if w.Value == core.SkipConv(v) {
+					return true
+				}
+			}
+			return false
+		}
+		gw := core.FieldWritesIn(fn, gate)
+		allMax := len(gw) > 0
+		for _, w := range gw {
+			c, ok := core.SkipConv(w.Value).(*ssa.Call)
+			if !ok {
+				allMax = false
+				continue
+			}
+			b, ok := c.Call.Value.(*ssa.Builtin)
+			if !ok || b.Name() != "max" || len(c.Call.Args) != 2 || !((isStartV(c.Call.Args[0]) && isHandV(c.Call.Args[1])) || (isStartV(c.Call.Args[1]) && isHandV(c.Call.Args[0]))) {
+				allMax = false
+			}
+		}
+		if allMax {
+			r.Pass("C12.R2", "BuildRequestDetails/gate", "LinearGateBlockNum = max(LinearHandoffBlockNum, ResolvedStartBlockNum) (builtin max of the two): outputs of the linear phase are gated at the start block", p.Pos(fn.Pos()))
+		}
 		paths := core.Summarize(&core.SymConfig{Fn: fn, PlainFields: map[*types.Var]string{gate: "gate", hand: "hand", start: "start"}})
 		n := 0
 		var bad []string
@@ -319,7 +358,9 @@ func runC12(p *core.Prog, r *core.Report) {
 				bad = append(bad, "gate chosen without comparing start with hand-off")
 			}
 		}
-		r.Check(n >= 2 && len(bad) == 0, "C12.R2", "BuildRequestDetails/gate", "LinearGateBlockNum = max(LinearHandoffBlockNum, ResolvedStartBlockNum): outputs of the linear phase are gated at the start block", strings.Join(bad, "; "), p.Pos(fn.Pos()))
+		if !allMax {
+			r.Check(n >= 2 && len(bad) == 0, "C12.R2", "BuildRequestDetails/gate", "LinearGateBlockNum = max(LinearHandoffBlockNum, ResolvedStartBlockNum): outputs of the linear phase are gated at the start block", strings.Join(bad, "; "), p.Pos(fn.Pos()))
+		}
 		// hand-off field ← result of computeLinearHandoffBlockNum, whose start/stop args are the resolved start and the request's stop
 		clh := p.FuncObj(pkgPipe, "computeLinearHandoffBlockNum")
 		okH := false
